@@ -6,6 +6,7 @@
 
 use std::{
     fmt::Debug,
+    hash::{Hash, Hasher},
     io::{Read, Write},
     path::Path,
     sync::OnceLock,
@@ -60,30 +61,54 @@ pub fn install(hooks: Hooks) -> bool {
     HOOKS.set(hooks).is_ok()
 }
 
-#[inline]
-pub fn access(op: &'static str, ty: &'static str, id: Option<&dyn Debug>) {
-    if let Some(h) = HOOKS.get() {
-        (h.access)(op, ty, id)
+/// How an identifier is shown to the simulator: its `Debug` text, made unambiguous.
+///
+/// `Debug` of identifiers that carry a location rounds the coordinates to two decimals,
+/// so two distinct identifiers can print alike; those get a hash of the identifier appended.
+struct Precise<'a, I>(&'a I);
+
+impl<I: Debug + Hash> Debug for Precise<'_, I> {
+    fn fmt(&self, f: &mut std::fmt::Formatter<'_>) -> std::fmt::Result {
+        let text = format!("{:?}", self.0);
+        if text.contains('{') {
+            // DefaultHasher::new() uses fixed keys: the same identifier hashes alike in every process
+            let mut hasher = std::hash::DefaultHasher::new();
+            self.0.hash(&mut hasher);
+            write!(f, "{text}#{:08x}", hasher.finish() as u32)
+        } else {
+            f.write_str(&text)
+        }
     }
 }
 
 #[inline]
-pub fn note(what: &'static str, ty: &'static str, id: &dyn Debug) {
+pub fn access<I: Debug + Hash>(op: &'static str, ty: &'static str, id: Option<&I>) {
     if let Some(h) = HOOKS.get() {
-        (h.note)(what, ty, id)
+        let id = id.map(Precise);
+        (h.access)(op, ty, id.as_ref().map(|id| id as &dyn Debug))
     }
 }
 
 #[inline]
-pub fn wrote(ty: &'static str, id: &dyn Debug) {
+pub fn note<I: Debug + Hash>(what: &'static str, ty: &'static str, id: &I) {
     if let Some(h) = HOOKS.get() {
-        (h.wrote)(ty, id)
+        (h.note)(what, ty, &Precise(id))
     }
 }
 
 #[inline]
-pub fn evict(ty: &'static str, id: &dyn Debug) -> bool {
-    HOOKS.get().map(|h| (h.evict)(ty, id)).unwrap_or(false)
+pub fn wrote<I: Debug + Hash>(ty: &'static str, id: &I) {
+    if let Some(h) = HOOKS.get() {
+        (h.wrote)(ty, &Precise(id))
+    }
+}
+
+#[inline]
+pub fn evict<I: Debug + Hash>(ty: &'static str, id: &I) -> bool {
+    HOOKS
+        .get()
+        .map(|h| (h.evict)(ty, &Precise(id)))
+        .unwrap_or(false)
 }
 
 #[inline]
@@ -95,41 +120,41 @@ pub fn readback_enabled() -> bool {
 }
 
 #[inline]
-pub fn readback(
+pub fn readback<I: Debug + Hash>(
     ty: &'static str,
-    id: &dyn Debug,
+    id: &I,
     equal: Option<bool>,
     original: &[u8],
     restored: Option<&[u8]>,
 ) {
     if let Some(h) = HOOKS.get() {
-        (h.readback)(ty, id, equal, original, restored)
+        (h.readback)(ty, &Precise(id), equal, original, restored)
     }
 }
 
-pub fn wrap_writer(id: &dyn Debug, path: &Path, inner: Box<dyn Write>) -> Box<dyn Write> {
+pub fn wrap_writer<I: Debug + Hash>(id: &I, path: &Path, inner: Box<dyn Write>) -> Box<dyn Write> {
     match HOOKS.get() {
-        Some(h) => (h.wrap_writer)(id, path, inner),
+        Some(h) => (h.wrap_writer)(&Precise(id), path, inner),
         None => inner,
     }
 }
 
-pub fn wrap_reader(id: &dyn Debug, path: &Path, inner: Box<dyn Read>) -> Box<dyn Read> {
+pub fn wrap_reader<I: Debug + Hash>(id: &I, path: &Path, inner: Box<dyn Read>) -> Box<dyn Read> {
     match HOOKS.get() {
-        Some(h) => (h.wrap_reader)(id, path, inner),
+        Some(h) => (h.wrap_reader)(&Precise(id), path, inner),
         None => inner,
     }
 }
 
 #[inline]
-pub fn event(what: &'static str, id: &dyn Debug, detail: Option<&dyn Debug>) {
+pub fn event<I: Debug + Hash>(what: &'static str, id: &I, detail: Option<&dyn Debug>) {
     if let Some(h) = HOOKS.get() {
-        (h.event)(what, id, detail)
+        (h.event)(what, &Precise(id), detail)
     }
 }
 
-pub fn pre_exec(id: &dyn Debug) -> Option<String> {
-    HOOKS.get().and_then(|h| (h.pre_exec)(id))
+pub fn pre_exec<I: Debug + Hash>(id: &I) -> Option<String> {
+    HOOKS.get().and_then(|h| (h.pre_exec)(&Precise(id)))
 }
 
 pub fn io_step(what: &'static str, path: &Path) -> Option<std::io::Error> {
